@@ -192,6 +192,8 @@ struct Allowance {
     /// per type: extra rows the COUNT defect may / must add
     dbl_lo: BTreeMap<String, usize>,
     dbl_hi: BTreeMap<String, usize>,
+    /// (shard, segment id) -> keys of the events that rotation carries
+    seg_events: BTreeMap<(usize, u64), BTreeSet<i64>>,
 }
 
 fn allowance(s: &Schedule, gates: &[GateHit], upto_op: usize, acked: &[Ev]) -> Allowance {
@@ -201,7 +203,7 @@ fn allowance(s: &Schedule, gates: &[GateHit], upto_op: usize, acked: &[Ev]) -> A
     for e in acked {
         per_shard.entry(*route.get(&e.ctx).unwrap_or(&0)).or_default().push(e.clone());
     }
-    let mut a = Allowance { must: BTreeSet::new(), hide_active: false, dbl_lo: BTreeMap::new(), dbl_hi: BTreeMap::new() };
+    let mut a = Allowance { must: BTreeSet::new(), hide_active: false, dbl_lo: BTreeMap::new(), dbl_hi: BTreeMap::new(), seg_events: BTreeMap::new() };
     for (shard, evs) in &per_shard {
         let q = evs.len() / cap; // rotations queued so far on this shard
         // rotation j <-> j-th flush.queued hit on this shard
@@ -218,6 +220,9 @@ fn allowance(s: &Schedule, gates: &[GateHit], upto_op: usize, acked: &[Ev]) -> A
         for j in 0..q {
             let slice: Vec<&Ev> = evs.iter().skip(j * cap).take(cap).collect();
             let seg = segs.get(j).copied();
+            if let Some(sg) = seg {
+                a.seg_events.entry((*shard, sg)).or_default().extend(slice.iter().map(|e| e.k));
+            }
             let readable = seg.map_or(false, |sg| reached(sg, &["flush.index_saved"]));
             let cols = seg.map_or(false, |sg| reached(sg, &["zone.columns_written"]));
             let cleared = seg.map_or(false, |sg| reached(sg, &["flush.passive_cleared"]));
@@ -294,7 +299,23 @@ fn judge(s: &Schedule, b: &Built, r: &JobResult) -> (Vec<Finding>, usize, BTreeS
             let repn = &step.replies[8 + ti];
             let mut gotn: Vec<i64> = repn.rows.iter().filter_map(|row| row.get("k").and_then(|v| v.as_i64())).collect();
             gotn.sort();
-            if let Some(k) = sel_verdict(&gotn, &want) {
+            if let Some(mut k) = sel_verdict(&gotn, &want) {
+                // listed: a read served while a flush is held inside the zone writer leaves stale
+                // per-segment state behind; the NOT path (complement over the zones of the plan's
+                // segments) then keeps missing exactly the events of that segment
+                if k.is_none() {
+                    for p in [&s.park1, &s.park2, &s.tail_park].into_iter().flatten() {
+                        if p.0.starts_with("zone.") {
+                            // the held rotation and the ones queued behind it on that shard
+                            let evs: BTreeSet<i64> = al.seg_events.iter().filter(|((sh, sg), _)| *sh == p.1 && *sg >= p.2).flat_map(|(_, v)| v.iter().copied()).collect();
+                            let missing: Vec<&i64> = want.iter().filter(|x| !gotn.contains(x)).collect();
+                            let subset = gotn.iter().all(|x| want.contains(x));
+                            if subset && !missing.is_empty() && missing.iter().all(|x| evs.contains(x)) {
+                                k = Some("KF-not-path-stale-after-read-inside-zone-writer".to_string());
+                            }
+                        }
+                    }
+                }
                 out.push(Finding { schedule: s.clone(), stage: stage.to_string(), what: format!("QUERY {t} WHERE NOT k = -1 returned {gotn:?}, applied events are {want:?}"), known: k });
             }
             let (full, less) = limits(want.len());
